@@ -86,6 +86,12 @@ type scanner struct {
 	lengthComputing bool
 
 	hasTrailingCharacters bool
+
+	// arrayFound a sign that the opening square brace of the enum values has been found.
+	arrayFound bool
+
+	// afterSlash a sign that the last scanned byte is a slash which may start a comment.
+	afterSlash bool
 }
 
 func newScanner(file *fs.File, oo ...scannerOption) *scanner {
@@ -195,6 +201,20 @@ func (s *scanner) Next() (lexeme.LexEvent, error) {
 
 func (s *scanner) processTail() (lexeme.LexEvent, error) {
 	if s.stack.Len() == 0 {
+		if s.afterSlash {
+			// A lone slash at the end of the input isn't a comment.
+			err := errors.NewDocumentError(s.file, errors.ErrUnexpectedEOF)
+			err.SetIndex(s.dataSize - 1)
+			return lexeme.LexEvent{}, err
+		}
+		if !s.arrayFound && !s.lengthComputing {
+			// Nothing but blanks and comments: there are no enum values at all.
+			err := errors.NewDocumentError(s.file, errors.ErrEnumArrayExpected)
+			if s.dataSize > 0 {
+				err.SetIndex(s.dataSize - 1)
+			}
+			return lexeme.LexEvent{}, err
+		}
 		return lexeme.LexEvent{}, errEOS
 	}
 
@@ -243,6 +263,7 @@ func (s *scanner) stateBegin(c byte) (state, error) {
 	}
 
 	s.found(lexeme.ArrayBegin)
+	s.arrayFound = true
 	s.step = s.stateFoundArrayItemBeginOrEmpty
 	return scanSkip, nil
 }
@@ -684,6 +705,7 @@ func (s *scanner) stateNul(c byte) (state, error) {
 }
 
 func (s *scanner) stateAnyAnnotationStart(c byte) (st state, err error) {
+	s.afterSlash = false
 	switch c {
 	case '/':
 		s.annotation = true
@@ -844,5 +866,6 @@ func (s *scanner) switchToAnnotation() error {
 	}
 	s.returnToStep.Push(s.step)
 	s.step = s.stateAnyAnnotationStart
+	s.afterSlash = true
 	return nil
 }
